@@ -41,7 +41,27 @@ def main(argv=None):
         return ctx.finish()
     except SystemExit:
         raise
-    except Exception:
+    except Exception as e:
+        # An exception that escapes from a check is a fault of the checker - unless it was raised INSIDE the library under
+        # check while the (bounded) harness was exercising it: on the unchanged tree that never happens, so after a code change
+        # it is the library behaving differently, and it is reported as such with the traceback.
+        tb = traceback.extract_tb(e.__traceback__)
+        repo = os.path.realpath(os.environ.get("VERIF_REPO", "/repo"))
+        innermost = os.path.realpath(tb[-1].filename) if tb else ""
+        via_generator = any("/vf/pyvc/" in fr.filename or "/vf/rx.py" in fr.filename for fr in tb)
+        if innermost.startswith(repo + os.sep) and not via_generator and not a.replay:
+            where = "%s:%d in %s" % (os.path.relpath(innermost, repo), tb[-1].lineno, tb[-1].name)
+            harness = next((fr for fr in reversed(tb) if "/props/" in fr.filename or "/vf/" in fr.filename), None)
+            ctx.violation("harness: %s raised inside the library at %s" % (type(e).__name__, where.split(":")[0]),
+                          "bounded harness: unexpected %s raised inside the library (%s)" % (type(e).__name__, where),
+                          "".join(traceback.format_exception(type(e), e, e.__traceback__))[-3000:],
+                          inputs={"exception": repr(e), "raised_at": where,
+                                  "harness_line": "%s:%d: %s" % (harness.filename, harness.lineno, harness.line) if harness else None},
+                          confirmed=True)
+            try:
+                return ctx.finish()
+            except Exception:
+                pass
         traceback.print_exc()
         print("CHECKER-FAULT property=%s (no verdict)" % a.prop)
         return 3
